@@ -86,6 +86,7 @@ package hashgraph
 //@ iface func (s Store) GetEvent(hash string) (*Event, error)
 //@   modifies G_miss(s)
 //@   ensures[hit]  ret1 == nil ==> ret0 != nil && __in(hash, G_events(s)) && ret0 == G_events(s)[hash] && HexOf(ret0) == hash && __in(CreatorOf(ret0), G_rep(s)) && len(ret0.Body.Parents) == 2
+//@   ensures[sig]  ret1 == nil ==> keys.SigWellFormed(ret0.Signature)
 //@   ensures[missflag] (ret1 != nil && __in(hash, G_events(s)) ==> G_miss(s)) && (old(G_miss(s)) ==> G_miss(s))
 //@   ensures[miss] !__in(hash, G_events(s)) ==> ret1 != nil
 //@   ensures[err]  ret1 != nil ==> ret0 == nil
@@ -559,7 +560,25 @@ package hashgraph
 //@   requires h != nil && h.MemoOK()
 //@   modifies common.G_m(h.witnessCache), common.G_m(h.roundCache), common.G_m(h.stronglySeeCache), common.G_m(h.timestampCache), G_miss(h.Store)
 //@   ensures[memo] h.MemoOK()
-//@   ensures[core] ret1 == nil ==> ret0 != nil && __fresh(ret0) && ret0.Core != nil && ret0.Core == G_events(h.Store)[x] && __in(x, G_events(h.Store))
+//@   ensures[core] ret1 == nil ==> ret0 != nil && __fresh(ret0) && ret0.Core != nil && ret0.Core == G_events(h.Store)[x] && __in(x, G_events(h.Store)) && SigWF(ret0.Core.Signature)
+//@   ensures[values] ret1 == nil ==> ret0.Round == RoundV(h, x) && (!G_miss(h.Store) ==> ret0.LamportTimestamp == LTV(h, x)) && __in(x, G_rounds(h.Store)[RoundV(h, x)].CreatedEvents) && ret0.Witness == G_rounds(h.Store)[RoundV(h, x)].CreatedEvents[x].Witness
+
+// Consensus order inside a frame (C01, C03, C04): Lamport timestamp, ties by the numeric value of the first
+// half of the event signature. Nothing local (topological index, arrival time) takes part.
+//@ ghost func SigWF(sig string) bool { return keys.SigWellFormed(sig) }
+//@ ghost func SigR(sig string) int { return keys.Parse36(keys.SplitBar(sig)[0]) }
+//@ ghost func FELess(x *FrameEvent, y *FrameEvent) bool { return x.LamportTimestamp < y.LamportTimestamp || (x.LamportTimestamp == y.LamportTimestamp && SigR(x.Core.Signature) < SigR(y.Core.Signature)) }
+
+//@ func (a SortedFrameEvents) Less(i, j int) bool
+//@   safety on
+//@   requires 0 <= i && i < len(a) && 0 <= j && j < len(a) && a[i] != nil && a[j] != nil && a[i].Core != nil && a[j].Core != nil && SigWF(a[i].Core.Signature) && SigWF(a[j].Core.Signature)
+//@   modifies nothing
+//@   ensures[rule] ret0 == FELess(a[i], a[j])
+
+//@ lemma feless_strict_weak_order(x *FrameEvent, y *FrameEvent, z *FrameEvent)
+//@   ensures[irreflexive] !FELess(x, x)
+//@   ensures[transitive]  FELess(x, y) && FELess(y, z) ==> FELess(x, z)
+//@   ensures[incomparability-transitive] !FELess(x, y) && !FELess(y, x) && !FELess(y, z) && !FELess(z, y) ==> !FELess(x, z) && !FELess(z, x)
 
 // FW: x is a famous witness recorded in round-info r.
 //@ ghost func FW(r *RoundInfo, x string) bool { return __in(x, r.CreatedEvents) && r.CreatedEvents[x].Witness && r.CreatedEvents[x].Famous == common.True }
@@ -573,6 +592,8 @@ package hashgraph
 //@   ensures[timestamp] ret1 == nil && __called("SetFrame") ==> common.IsMedianOf(timestamps, ret0.Timestamp)
 //@   ensures[famous]    ret1 == nil && __called("SetFrame") ==> (exists fw []string :: __enum(fw, round.CreatedEvents, func(x string) bool { return FW(round, x) }) && len(timestamps) == len(fw) && (forall k int :: 0 <= k && k < len(fw) ==> __in(fw[k], G_events(h.Store)) && timestamps[k] == G_events(h.Store)[fw[k]].Body.Timestamp))
 //@   ensures[round]     ret1 == nil && __called("SetFrame") ==> round == G_rounds(h.Store)[roundReceived] && ret0.Round == roundReceived
+//@   ensures[ordered]   ret1 == nil && __called("SetFrame") ==> (forall i int, j int :: 0 <= i && i < j && j < len(ret0.Events) ==> !FELess(ret0.Events[j], ret0.Events[i]))
+//@   ensures[received]  ret1 == nil && __called("SetFrame") ==> len(ret0.Events) == len(round.ReceivedEvents) && (forall k int :: 0 <= k && k < len(round.ReceivedEvents) ==> (exists m int :: 0 <= m && m < len(ret0.Events) && ret0.Events[m].Core == G_events(h.Store)[round.ReceivedEvents[k]]))
 //@   loop 1 modifies common.G_m(h.witnessCache), common.G_m(h.roundCache), common.G_m(h.stronglySeeCache), common.G_m(h.timestampCache), G_miss(h.Store)
 //@   loop 2 modifies common.G_m(h.witnessCache), common.G_m(h.roundCache), common.G_m(h.stronglySeeCache), common.G_m(h.timestampCache), G_miss(h.Store), roots[*]
 //@   loop 3 modifies common.G_m(h.witnessCache), common.G_m(h.roundCache), common.G_m(h.stronglySeeCache), common.G_m(h.timestampCache), G_miss(h.Store), roots[*]
@@ -581,7 +602,7 @@ package hashgraph
 //@   loop 2 invariant[memo] h.MemoOK()
 //@   loop 3 invariant[memo] h.MemoOK()
 //@   loop 4 invariant[memo] h.MemoOK()
-//@   loop 1 invariant[cores] !(events == nil) && (forall k int :: 0 <= k && k < len(events) ==> events[k] != nil && events[k].Core != nil)
+//@   loop 1 invariant[cores] !(events == nil) && len(events) == __idx() && (forall k int :: 0 <= k && k < len(events) ==> events[k] != nil && events[k].Core != nil && SigWF(events[k].Core.Signature) && events[k].Core == G_events(h.Store)[round.ReceivedEvents[k]])
 //@   loop 2 invariant[cores] forall k int :: 0 <= k && k < len(events) ==> events[k] != nil && events[k].Core != nil
 //@   loop 4 invariant[ts] !(timestamps == nil) && len(timestamps) == __idx() && (forall k int :: 0 <= k && k < __idx() ==> __in(__ranged([]string(nil))[k], G_events(h.Store)) && timestamps[k] == G_events(h.Store)[__ranged([]string(nil))[k]].Body.Timestamp)
 
